@@ -289,3 +289,6 @@ Definition sign_with_ts (cls : Z) (has_ts : bool) (q : request) (rs : list reply
   else (Ok None, []).
 
 End Model.
+
+(* a concrete digest for evaluation and for the witnesses: algorithm tag followed by the data (injective) *)
+Definition Hsym (a : Z) (d : bytes) : bytes := a :: d.
